@@ -25,6 +25,10 @@ type c06Case struct {
 	Faults    []c06Fault `json:"faults"`    // one per consecutive generation
 	Bystander string     `json:"bystander"` // "" | invoke | shutdown : a healthy second extension and what it subscribes to
 	SubE1     []string   `json:"subE1"`     // subscriptions of the faulty extension
+	// AdoptDemo orders the known finding "poll of a killed runtime adopted by the next generation" deterministically: the
+	// Runtime API's handling of the first runtime's next request is paused (vhook rapi.next) until the failure's reset is
+	// over and the first healthy invocation has started the next generation.
+	AdoptDemo bool `json:"adoptDemo,omitempty"`
 }
 
 const c06InitErrBody = `{"errorMessage":"boom-from-init","errorType":"Custom.InitBoom"}`
@@ -156,6 +160,20 @@ func (c *c06Case) scenario() *Scenario {
 	sc.Actors["runtime"] = append(rts, healthyRT)
 	if useE1 {
 		sc.Actors["ext:e1"] = append(e1s, healthyE1)
+	}
+	if c.AdoptDemo {
+		// the old runtime's poll is finally handled when the new runtime is already parked in its first poll and the new
+		// initialisation still waits for the extension: two handlers are then parked for one runtime, the live one first
+		sc.Actors["ext:e1"][len(sc.Actors["ext:e1"])-1] = Script{Steps: []Step{{Op: "ext.register", Events: subE1}, {Op: "await", Name: "adopt.ext", Ms: 4000}, {Op: "ext.loop", Events: subE1}}}
+		// ... and the faulty extension fails the first initialisation only once that poll has reached the Runtime API
+		sc.Actors["ext:e1"][0] = Script{Steps: []Step{{Op: "ext.register", Events: subE1}, {Op: "await", Name: "hook.parked:rapi.next", Ms: 4000}, {Op: "exit", Code: 1}}}
+		sc.Hooks = []HookPlan{{Point: "rapi.next", Nth: 1}}
+		sc.Driver = append(sc.Driver, Step{Op: "flag", Flag: "stage", Count: len(c.Faults)},
+			Step{Op: "invoke", Async: true, Tag: "H0", Payload: &kit.Blob{Len: 21, Seed: 7, Kind: "ascii"}},
+			Step{Op: "waitstate", Who: "runtime", State: "Ready", Ms: 4000}, Step{Op: "hook.release", Point: "rapi.next"}, Step{Op: "sleep", Ms: 15},
+			Step{Op: "signal", Name: "adopt.ext"}, Step{Op: "join", Tag: "H0"},
+			Step{Op: "invoke", Tag: "H1", Payload: &kit.Blob{Len: 22, Seed: 8, Kind: "ascii"}})
+		return sc
 	}
 	sc.Driver = append(sc.Driver, Step{Op: "flag", Flag: "stage", Count: len(c.Faults)},
 		Step{Op: "invoke", Tag: "H0", Payload: &kit.Blob{Len: 21, Seed: 7, Kind: "ascii"}},
@@ -303,6 +321,19 @@ func c06Check(c c06Case) (out kit.Outcome) {
 		wantResp := kit.Summarise(transform(rid, trunc(kit.Blob{Len: 40 + g, Seed: uint64(100 + g), Kind: "json"}.Bytes())))
 		gotResp := posted && ret.Body != nil && ret.Body.Sha == wantResp.Sha
 		delivered := accepted || gotResp
+		// A fault "at idle" of the first generation is placed right after the faulty party was seen parked in its next; the
+		// platform may not have finished the initialisation yet at that instant (exit reports are immediate), and then it
+		// is a fault of the first initialisation, answered like one.
+		initFault := f.initPhase()
+		if f.Point == "idle" && g == 0 && f.Warm == 0 {
+			for k := range tr.Events {
+				e := &tr.Events[k]
+				if e.Kind == "platform" && e.Call == "InitRuntimeDone" && xs(e, "phase") == "init" && xs(e, "status") == "error" && e.Seq < ret.Seq {
+					initFault = true
+					out.Label("idle-fault-overtook-first-init")
+				}
+			}
+		}
 		switch {
 		case delivered:
 			out.Label("body:delivered-response")
@@ -315,13 +346,13 @@ func c06Check(c c06Case) (out kit.Outcome) {
 				out.Violate("C06/init-error-payload", "%s: expected the runtime's init-error payload, caller got %q", desc, clip(ret.Text, 300))
 				return out
 			}
-		case f.initPhase() && g == 0:
+		case initFault && g == 0:
 			// fault during the first initialisation, not reported by the runtime: failure status only
 			if ret.Text != "" {
 				out.Violate("C06/init-fault-body", "%s: expected the failure status only, caller got body %q", desc, clip(ret.Text, 300))
 				return out
 			}
-		case f.initPhase():
+		case initFault:
 			// fault during a re-initialisation inside the invocation: the statement's clauses pull apart; both accepted (DESIGN C06)
 			if ret.Text != "" && !namesFault {
 				out.Violate("C06/reinit-fault-body", "%s: expected empty body or JSON naming %s (request %s), caller got %q", desc, first, id, clip(ret.Text, 300))
@@ -431,6 +462,8 @@ func c06Fixed() []c06Case {
 		bys = []string{"", "invoke", "shutdown", "shutdown-exiterr"}
 	}
 	out = append(out, c06Case{Bystander: "shutdown-exiterr", Faults: []c06Fault{{Who: "runtime", Point: "afternext", Exit: "code:1"}, {Who: "runtime", Point: "afternext", Exit: "code:2"}}})
+	// known finding, ordered by a pause point: the first runtime's poll is handled only after the reset (see AdoptDemo)
+	out = append(out, c06Case{AdoptDemo: true, SubE1: []string{"INVOKE", "SHUTDOWN"}, Faults: []c06Fault{{Who: "ext", Point: "afterregister", Exit: "code:1", Pending: true}}})
 	rtPoints := []string{"init", "initerror", "afternext", "afterresponse", "idle", "launch"}
 	extPoints := []string{"beforeregister", "afterregister", "initerror", "afterevent", "exiterror", "idle", "launch"}
 	for _, by := range bys {
